@@ -55,7 +55,13 @@ func (f *Fed) SubQueryerFactory(log *SubLog, maxBatch int) pebbles.GatewayOption
 	// gateway under test may (wrongly) run mutations concurrently
 	client := &http.Client{Transport: &lockedTransport{inner: &Transport{Fed: f}}}
 	return pebbles.WithQueryerFactory(func(ctx *planner.PlanningContext, url string) queryer.Queryer {
-		return &SubQueryer{MultiOpQueryer: queryer.NewMultiOpQueryer(url, maxBatch).WithHTTPClient(client), log: log, url: url}
+		q := queryer.NewMultiOpQueryer(url, maxBatch).WithHTTPClient(client)
+		// like the gateway's default factory: a queryer made for an HTTP request lives as long as that
+		// request (one kept and used for a later request finds its context cancelled)
+		if ctx != nil && ctx.Request != nil && ctx.Request.Original != nil && ctx.Request.Original.Method == http.MethodPost {
+			q = q.WithContext(ctx.Request.Original.Context())
+		}
+		return &SubQueryer{MultiOpQueryer: q, log: log, url: url}
 	})
 }
 
